@@ -1110,6 +1110,12 @@ def project1(v, e):
             return ('unknown', 'downcast of %s to %s' % (v[2], e[1]))
         if v[0] == 'load':
             return ('load', v[1], v[2] + (e,))
+        if v[0] == 'phi' and e[1] in ('Some', 'Ok', 'Err', 'None'):
+            # `(x as Some).0` of a value built on several paths: alternatives built as another variant cannot be the one read
+            alts = [a_ for a_ in v[1] if not (a_[1][0] == 'agg' and a_[1][1] == 'adt' and
+                                              a_[1][2].startswith(('core::option::Option::', 'core::result::Result::')) and not a_[1][2].endswith('::' + e[1]))]
+            if len(alts) == 1 and len(alts) < len(v[1]):
+                return project1(alts[0][1], e)
         return ('variant', e[1], v)
     if k == 'i':
         if v[0] == 'agg' and v[1] == 'array' and e[1][0] == 'const' and isinstance(e[1][2], int) and e[1][2] < len(v[3]):
